@@ -70,8 +70,9 @@ def amplitude_normalise(X, thresh=1e-10, clip=False, interp_method='pchip',
                                                                                           thresh,
                                                                                           max_iters))
 
-    # Don't normalise in place
-    X = X.copy()
+    # Don't normalise in place - work on a floating point copy so that
+    # integer-valued input is not truncated by the division below
+    X = X.astype(float)
 
     orig_dim = X.ndim
     if X.ndim == 2:
